@@ -1,0 +1,49 @@
+//go:build verif
+
+package serf
+
+import "time"
+
+// Accessors for the event coalescers, used only by the verification harness
+// (/verif). Compiled only with -tags verif.
+
+// VerifCoalescer wraps one of the two unexported coalescers.
+type VerifCoalescer struct{ c coalescer }
+
+// VerifNewMemberCoalescer returns a fresh member event coalescer, built exactly
+// as Create builds it.
+func VerifNewMemberCoalescer() *VerifCoalescer {
+	return &VerifCoalescer{c: &memberEventCoalescer{
+		lastEvents:   make(map[string]EventType),
+		latestEvents: make(map[string]coalesceEvent),
+	}}
+}
+
+// VerifNewUserCoalescer returns a fresh user event coalescer, built exactly as
+// Create builds it.
+func VerifNewUserCoalescer() *VerifCoalescer {
+	return &VerifCoalescer{c: &userEventCoalescer{
+		events: make(map[string]*latestUserEvents),
+	}}
+}
+
+func (v *VerifCoalescer) Handle(e Event) bool { return v.c.Handle(e) }
+func (v *VerifCoalescer) Coalesce(e Event)    { v.c.Coalesce(e) }
+
+// Flush runs the coalescer's Flush and returns what it sent, in order.
+func (v *VerifCoalescer) Flush() []Event {
+	ch := make(chan Event, 1<<16)
+	v.c.Flush(ch)
+	close(ch)
+	var out []Event
+	for e := range ch {
+		out = append(out, e)
+	}
+	return out
+}
+
+// VerifCoalescedEventCh starts the real coalesce loop around the coalescer.
+func VerifCoalescedEventCh(outCh chan<- Event, shutdownCh <-chan struct{},
+	cPeriod, qPeriod time.Duration, v *VerifCoalescer) chan<- Event {
+	return coalescedEventCh(outCh, shutdownCh, cPeriod, qPeriod, v.c)
+}
